@@ -516,7 +516,8 @@ cdef class HttpParser:
         if enc is not None:
             self._content_encoding = None
             if enc.isascii() and enc.lower() in {"gzip", "deflate", "br", "zstd"}:
-                encoding = enc
+                # content-coding values are case-insensitive (RFC 9110 section 8.4.1)
+                encoding = enc.lower()
 
         if self._cparser.type == cparser.HTTP_REQUEST:
             method = <str>_http_method[self._cparser.method]
